@@ -5,6 +5,8 @@
 //!   2 cap rate now nops n*                  | res*       real IpRateLimiter, real clock (one second)
 //!   3 cap rate now nmsgs {rcode q r <ck>}*  | res*       real should_ratelimit, fresh limiter
 //!   4 <ck>                                  | status     real validate_cookie_keys
+//!   5 <cur1> <prev1> <cur2> <prev2>         | s0 sff sg  CookieKeys::new() twice; cookies forged under guessable keys
+//!   6 cap rate now nops {k v}*              | res*       real IpRateLimiter, time passing by shifting the timestamps
 #[path = "../util.rs"]
 mod util;
 use erbium::dns::{self, dnspkt, verif as hk};
@@ -476,6 +478,99 @@ fn case_cookie(c: &Ck, local: &[u8], remote: &[u8]) -> Toks {
     t
 }
 
+
+// ---- kind 5: the keys of a fresh service -----------------------------------------
+fn case_fresh_keys(local: &[u8], remote: &[u8], client: &[u8]) -> Toks {
+    let (c1, p1) = hk::fresh_cookie_keys();
+    let (c2, p2) = hk::fresh_cookie_keys();
+    let mut t = Toks::new();
+    t.n(5).bytes(&c1).bytes(&p1).bytes(&c2).bytes(&p2);
+    // a cookie forged under a key anybody can guess, presented to instance 1
+    for forged in [[0u8; 8], [0xffu8; 8], [1, 2, 3, 4, 5, 6, 7, 8]] {
+        let ck = Ck {
+            present: true,
+            cur: c1.to_vec(),
+            prev: p1.to_vec(),
+            ikey: forged.to_vec(),
+            cp: client.to_vec(),
+            ci: client.to_vec(),
+            lp: local.to_vec(),
+            li: local.to_vec(),
+            rp: remote.to_vec(),
+            ri: remote.to_vec(),
+            mutation: 0,
+        };
+        let msg = msg_with(&ck, local, remote, 40);
+        t.n(match catch(|| hk::validate_cookie_keys(&msg, &c1, &p1)) {
+            Some(s) => s as u64,
+            None => 3,
+        });
+    }
+    t
+}
+
+// ---- kind 6: the limiter with time passing ---------------------------------------------
+fn case_shifted(ip: &[u8], ops: &[(u64, u64)]) -> Toks {
+    let rt = rt();
+    loop {
+        let t0 = real_now();
+        let lim = hk::Limiter::new();
+        let mut res = vec![];
+        for &(k, v) in ops {
+            if k == 0 {
+                res.push(match catch(|| rt.block_on(lim.check(ip_of(ip), v as usize))) {
+                    Some(b) => b as u64,
+                    None => 2,
+                });
+            } else {
+                rt.block_on(lim.shift_time(v as u32));
+                res.push(0);
+            }
+        }
+        if real_now() != t0 {
+            continue;
+        }
+        let mut t = Toks::new();
+        t.n(6).n(CAP).n(RATE).n(t0).n(ops.len() as u64);
+        for &(k, v) in ops {
+            t.n(k).n(v);
+        }
+        for x in res {
+            t.n(x);
+        }
+        return t;
+    }
+}
+
+fn gen_shifted(r: &mut Rng, stats: &mut Stats) -> Vec<(u64, u64)> {
+    let w = CAP / RATE;
+    let mut ops = vec![];
+    if r.chance(1, 2) {
+        // drain both buckets, flood with requests that are turned away, stay quiet for the refill
+        // period, then ask for something that fits: it must be granted
+        let n = *r.pick(&[200u64, 250, CAP / 2, CAP]);
+        for _ in 0..(2 * CAP / n + 1) {
+            ops.push((0, n));
+        }
+        for _ in 0..r.range(1, 12) {
+            ops.push((0, *r.pick(&[200u64, CAP, CAP + 1, 4000])));
+        }
+        ops.push((1, *r.pick(&[w, w, w + 1, 2 * w])));
+        ops.push((0, *r.pick(&[200u64, 1, CAP, CAP - 1])));
+        stats.bump("shifted.flood_then_quiet");
+    } else {
+        for _ in 0..r.range(2, 14) {
+            if r.chance(1, 3) {
+                ops.push((1, *r.pick(&[1u64, w - 1, w, w + 1, w / 2, 100, 99, 101])));
+            } else {
+                ops.push((0, gen_cost(r)));
+            }
+        }
+        stats.bump("shifted.random");
+    }
+    ops
+}
+
 // ---- replay -------------------------------------------------------------------
 struct Cur<'a>(&'a [u64], usize);
 impl<'a> Cur<'a> {
@@ -550,6 +645,15 @@ fn replay_line(toks: &[u64]) -> Option<Toks> {
             let k = c.ck()?;
             Some(case_cookie(&k, &[192, 0, 2, 1], &[192, 0, 2, 9]))
         }
+        5 => Some(case_fresh_keys(&[192, 0, 2, 1], &[192, 0, 2, 9], &[9, 8, 7, 6, 5, 4, 3, 2])),
+        6 => {
+            let (_cap, _rate, _now, nops) = (c.n()?, c.n()?, c.n()?, c.n()?);
+            let mut ops = vec![];
+            for _ in 0..nops {
+                ops.push((c.n()?, c.n()?));
+            }
+            Some(case_shifted(&[192, 0, 2, 77], &ops))
+        }
         _ => None,
     }
 }
@@ -590,6 +694,16 @@ pub fn run(args: &Args, out: &mut dyn Write) -> Stats {
             5 | 6 => {
                 let c = gen_ratelimit(&mut r, &mut stats);
                 writeln!(out, "{}", case_ratelimit(&c).0).unwrap();
+            }
+            7 if i % 32 == 7 => {
+                let client = r.bytes(8);
+                stats.bump("fresh_keys");
+                writeln!(out, "{}", case_fresh_keys(&[192, 0, 2, 1], &[192, 0, 2, 9], &client).0).unwrap();
+            }
+            7 if i % 16 == 15 => {
+                let ip = gen_ip(&mut r, false);
+                let ops = gen_shifted(&mut r, &mut stats);
+                writeln!(out, "{}", case_shifted(&ip, &ops).0).unwrap();
             }
             _ => {
                 let v6 = r.chance(1, 3);
